@@ -72,7 +72,10 @@ def writer_stream(ctx, g, batch, ir, auxinfo, tag):
     try:
         bs = save_bytes(ir)
     except Exception as e:  # noqa: BLE001
-        ctx.add("oracle", "writer:save-raised", "save of a self-contained IR raised %s: %s" % (exc_name(g, e), str(e)[:100]), {"tag": tag})
+        import traceback, sys
+        if os.environ.get("VERIF_DEBUG_TB"):
+            traceback.print_exc(file=sys.stderr)
+        ctx.add("oracle", "writer:save-raised", "save of a self-contained IR raised %s: %s" % (exc_name(g, e), str(e)[:100]), {"tag": tag, "where": traceback.format_exc()[-600:]})
         return None
     c = content.content_of(g, ir)
     msg = content.canon_msg(content.msg_to_sx(parse_body(bs)))
